@@ -9,6 +9,24 @@ BASE_ASSUMPTIONS = [
 ]
 
 CHECKS = {
+    "C02": {
+        "quick": [
+            {"pkg": "v2", "entries": ["VerifC02Lib"], "params": {"N": 2}},
+            {"pkg": "v2", "entries": ["VerifC02Hunks"], "params": {"HUNKS": 1, "PAYLOADS": 2, "MULTI": 2}},
+            {"pkg": "v2", "entries": ["VerifC02Hunks"], "params": {"HUNKS": 2, "PAYLOADS": 1, "MULTI": 1}},
+            {"pkg": "v2", "entries": ["VerifC02Color"], "params": {}},
+        ],
+        "thorough": [
+            {"pkg": "v2", "entries": ["VerifC02Lib"], "params": {"N": 3, "FAMS": 1}},
+            {"pkg": "v2", "entries": ["VerifC02Lib"], "params": {"N": 2}},
+            {"pkg": "v2", "entries": ["VerifC02Hunks"], "params": {"HUNKS": 1, "PAYLOADS": 4, "MULTI": 2}},
+            {"pkg": "v2", "entries": ["VerifC02Hunks"], "params": {"HUNKS": 2, "PAYLOADS": 2, "MULTI": 1}},
+            {"pkg": "v2", "entries": ["VerifC02Hunks"], "params": {"HUNKS": 3, "PAYLOADS": 1, "MULTI": 1, "PATHS": 5}},
+            {"pkg": "v2", "entries": ["VerifC02Color"], "params": {}},
+        ],
+        "covers": ["c02.lib.none", "c02.lib.set", "c02.lib.multiset", "c02.lib.setkeys", "c02.lib.merge", "c02.hunks", "c02.color"],
+        "outside": "character-level escaping of string payloads belongs to encoding/json (codec axioms; the colour leg uses a concrete alphabet incl. quotes, <>&, control and non-BMP characters through the real codec); more than 3 hunks, more than 2 removes/adds per hunk, more than one context line",
+    },
     "C15": {
         "quick": [
             {"pkg": "v2", "entries": ["VerifC15History"], "params": {"H": 2, "N": 2}},
@@ -160,7 +178,6 @@ DEFAULT_TECHNIQUE = "bounded symbolic execution of the Go SSA with SMT (z3/cvc5)
 
 _NA_PENDING = "check not built yet in this session (engine exists; harness pending)"
 NOT_APPLICABLE = {
-    "C02": _NA_PENDING, 
     "C09": _NA_PENDING, "C10": _NA_PENDING, 
     "C14": _NA_PENDING, "C17": _NA_PENDING, "C18": _NA_PENDING,
     "C16": ("quantifies over the characters of strings as they pass through yaml.v2's scanner/resolver/emitter and encoding/json "
